@@ -27,15 +27,16 @@ THEOREMS = ['Props.C10.' + t for t in [
     'add_layer_preserves_structure', 'delete_layer_preserves_structure',
     'add_connection_preserves_structure', 'delete_connection_preserves_structure',
     'add_column_preserves_structure', 'delete_column_preserves_structure',
-    'edit_histories_preserve_structure', 'edit_history_then_setup_names']]
+    'edit_histories_preserve_structure', 'edit_history_then_setup_names',
+    'rename_column_preserves', 'rename_layer_preserves', 'copy_layers_from_establishes_invariant']]
 LEVEL_TEXT = ('Partial proof. Lean 4 state-machine model of mulgrid (heap of nodes/columns/connections/layers/wells with explicit ids and '
               'hand-maintained back-references; add_/delete_ node/column/connection/layer/well, split_column, rename_column/layer, '
               'subdivide/triangulate/decompose_column(s), refine incl. the boundary walker and bisection, refine_layers, reduce, check(fix), '
               'snap_*, copy_layers_from, translate, rotate) and the C10 invariant GeoInv as executable predicates. Proved (no sorry): the '
               'name lists are fresh after every operation that recomputes them (11 theorems); translate and rotate (any angle, any centre) '
-              'preserve the whole invariant; add_node / delete_node / add_well / delete_well preserve it, add_layer / delete_layer / add_connection / delete_connection / add_column / delete_column (cascade included) its structural part, and so does EVERY history of these edits (plus translate and setup_*) each of which is '
+              'preserve the whole invariant, so do rename_column and rename_layer (to an unused name) and copy_layers_from even re-establishes it from the structural part; add_node / delete_node / add_well / delete_well preserve it, add_layer / delete_layer / add_connection / delete_connection / add_column / delete_column (cascade included) its structural part, and so does EVERY history of these edits (plus translate and setup_*) each of which is '
               'a sensible request when applied (induction over the history); the bare add_/delete_ operations leave the name lists stale (kernel-evaluated witness). NOT '
-              'proved: preservation of the back-reference clauses by split_column, rename_column/layer, subdivide/decompose, refine, reduce, check(fix), snap_*, refine_layers - these '
+              'proved: preservation of the back-reference clauses by split_column, subdivide/decompose, refine, reduce, check(fix), snap_*, refine_layers - these '
               'are covered by the correspondence (every state of every explored history: model state == real state up to renaming of '
               'generated names, and Lean GeoInv verdict == Python oracle verdict clause by clause) and by the oracle on the real code.')
 LEVEL_NOTE = ('Trusted: Lean kernel (+propext, Classical.choice, Quot.sound); the hand-written model, tied to /repo on every run by the '
@@ -182,6 +183,13 @@ def column_layer_ops(mg, g, rng, subset_cap):
                 ops.append(['refine', {'cols': [locs[i]], 'bisect': bisect, 'edge': e}])
     ops.append(['refine', {}])
     ops.append(['decompose_columns', {}])
+    ops.append(['reduce', {'cols': locs}])
+    ops.append(['snap_columns_to_layers', {'cols': [], 'min_thickness': H(1.0)}] if all(c.num_layers >= 1 for c in cols) else ['setup_names'])
+    ops.append(['check_fix'])
+    b = g.bounds
+    ops.append(['add_node', {'name': fresh_name(g, 'node', rng, g.colname_length), 'pos': [H(b[1][0] + 4), H(b[0][1])]}])
+    for con in sorted(g.connectionlist, key=lambda k: sorted([G.ckey(k.column[0]), G.ckey(k.column[1])]))[:6]:
+        ops.append(['delete_connection', {'cols': [G.col_loc(c) for c in sorted(con.column, key=G.ckey)]}])
     for i, c in enumerate(cols):
         ops.append(['delete_column', {'col': locs[i]}])
         ops.append(['rename_column', {'cols': [locs[i]], 'new': [fresh_name(g, 'column', rng, g.colname_length)],
@@ -212,16 +220,48 @@ def column_layer_ops(mg, g, rng, subset_cap):
     return ops
 
 
+def repair_ops(mg, g, rng):
+    """operations that promise something whatever state they start from: the selections `all columns` and `empty`
+    (= all) for everything that takes a selection, the recomputing operations, the mesh repairs"""
+    cols = sorted(g.columnlist, key=G.ckey)
+    everything = [G.col_loc(c) for c in cols]
+    ops = [['reduce', {'cols': everything}], ['check_fix'], ['setup_names'], ['roundtrip'], ['identify_neighbours'],
+           ['copy_layers_from', {'dz': [H(1.), H(3.), H(2.)], 'top': H(g.layerlist[0].bottom if g.layerlist else 0.)}],
+           ['refine', {}], ['refine', {'cols': everything}], ['decompose_columns', {}],
+           ['decompose_columns', {'cols': everything}]]
+    if len(cols) > 1:
+        ops.append(['reduce', {'cols': everything[:-1]}])
+        ops.append(['reduce', {'cols': everything[1:]}])
+    if 1 < len(g.layerlist) <= MAX_LAYERS // 2:
+        ops.append(['refine_layers', {'factor': 2}])
+        ops.append(['refine_layers', {'layers': [l.name for l in g.layerlist[1:]], 'factor': 3}])
+    if cols and all(c.num_layers >= 1 for c in cols):
+        ops.append(['snap_columns_to_layers', {'cols': [], 'min_thickness': H(1.0)}])
+        ops.append(['snap_columns_to_nearest_layers', {'cols': everything}])
+    return ops
+
+
 def random_op(mg, g, rng, inv):
     """one applicable operation, any kind (random long sequences).  `inv` = GeoInv of the current state:
     from a state outside the invariant (a bare edit left something stale) the generator mostly picks one of
     the repairing operations, and it never refines / decomposes / splits an invalid mesh."""
     cols = sorted(g.columnlist, key=G.ckey)
+    everything = [G.col_loc(c) for c in cols]
     if not G.consistent(inv) and rng.random() < 0.8:
-        return [rng.choice(['roundtrip', 'setup_names', 'setup_names', 'identify_neighbours']
-                           + (['refine_layers'] if inv['num_layers'] and 1 < len(g.layerlist) <= MAX_LAYERS // 2 else []))]
+        pick = rng.choice(['roundtrip', 'setup_names', 'setup_names', 'identify_neighbours', 'reduce_all', 'reduce_all', 'check_fix',
+                           'snap_all', 'copy_layers']
+                          + (['refine_layers'] if inv['num_layers'] and 1 < len(g.layerlist) <= MAX_LAYERS // 2 else []))
+        if pick == 'reduce_all' and cols:
+            return ['reduce', {'cols': everything}]
+        if pick == 'snap_all' and cols and all(c.num_layers >= 1 for c in cols) and not inv['num_layers']:
+            return ['snap_columns_to_layers', {'cols': [], 'min_thickness': H(1.0)}]
+        if pick == 'copy_layers':
+            return ['copy_layers_from', {'dz': [H(rng.choice([1., 2., 3.])) for _ in range(rng.randint(1, 4))],
+                                         'top': H(g.layerlist[0].bottom if g.layerlist else 0.)}]
+        if pick not in ('reduce_all', 'snap_all'):
+            return [pick]
     if not G.mesh_valid(inv) and rng.random() < 0.6:
-        return ['check_fix']
+        return ['reduce', {'cols': everything}] if cols and rng.random() < 0.5 else ['check_fix']
     healthy = G.consistent(inv) and G.mesh_valid(inv)
     r = rng.random()
     if not healthy and r < 0.26:
@@ -254,8 +294,10 @@ def random_op(mg, g, rng, inv):
     if not cols:
         return ['setup_names']
     if r < 0.16 and len(cols) < 300:
-        sel = some_cols(8)
+        m = rng.random()
+        sel = [] if (m < 0.08 and len(cols) <= 40) else (cols if (m < 0.16 and len(cols) <= 40) else some_cols(8))
         a = {'cols': L(sel), 'bisect': rng.choice([False, False, True, 'x', 'y'])}
+        sel = sel or cols
         if rng.random() < 0.3:
             selids = {id(c) for c in sel}
             nb = sorted({id(k): k for c in sel for k in c.neighbour if id(k) not in selids}.values(), key=G.ckey)
@@ -290,7 +332,7 @@ def random_op(mg, g, rng, inv):
         if len(lays) + len(sel or lays) * (f - 1) <= MAX_LAYERS:      # more layers than the convention can name: not an edit
             return ['refine_layers', {'layers': sel, 'factor': f}]
     if r < 0.47 and len(cols) > 2:
-        keep = some_cols(max(2, len(cols) - 1))
+        keep = cols if rng.random() < 0.2 else some_cols(max(2, len(cols) - 1))
         return ['reduce', {'cols': L(keep)}]
     if r < 0.52:
         sel = [c for c in (some_cols() if rng.random() < 0.7 else cols) if c.num_layers >= 1]
@@ -435,11 +477,15 @@ def exhaustive(ctx, mg, res, deadline, ties):
             res.count('len1:' + opsig(op1))
             record(res, v, recipe, [op1], label)
             res.distinct.add(json.dumps([label, op1], sort_keys=True))
-            if depth < 2 or not t or t[-1]['exc'] is not None or not t[-1]['consistent'] or time.time() > deadline:
+            if depth < 2 or not t or t[-1]['exc'] is not None or t[-1]['hard'] or time.time() > deadline:
                 continue
-            ops2 = column_layer_ops(mg, g1, rng, cap2)
-            if len(ops2) > budget2:
-                ops2 = rng.sample(ops2, budget2)
+            if not t[-1]['consistent'] or not t[-1]['mesh_valid']:
+                # a bare edit left (known, soft) damage or an invalid mesh: what do the repairing operations leave?
+                ops2 = repair_ops(mg, g1, rng)
+            else:
+                ops2 = column_layer_ops(mg, g1, rng, cap2)
+                if len(ops2) > budget2:
+                    ops2 = rng.sample(ops2, budget2)
             for op2 in ops2:
                 seqs = [[op1, op2]]
                 if rng.random() < 0.15:
